@@ -118,12 +118,21 @@ pub fn run(out: &mut Out, seed: u64, tier: &str) {
             // torsions and inversions that are EXACTLY planar (cis or trans), in coordinate planes and in tilted ones: every atom is
             // a dyadic combination a*u + b*v of two lattice vectors, so the two plane normals come out exactly parallel
             if *na == 4 && case % 8 == 3 {
-                let (u, v): ([f64; 3], [f64; 3]) = *rng.pick(&[([1., 0., 0.], [0., 1., 0.]), ([1., 1., 0.], [0., 0., 1.]), ([1., 0., 1.], [0., 1., 0.]), ([1., 2., 0.], [0., 0., 1.]), ([2., 1., 1.], [0., 1., -1.]), ([1., -1., 0.], [1., 1., 2.])]);
+                let (u, v): ([f64; 3], [f64; 3]) = *rng.pick(&[([1., 0., 0.], [0., 1., 0.]), ([1., 1., 0.], [0., 0., 1.]), ([1., 0., 1.], [0., 1., 0.]), ([1., 2., 0.], [0., 0., 1.]), ([2., 1., 1.], [0., 1., -1.]), ([1., -1., 0.], [1., 1., 2.]), ([1., 0., 0.], [0., 0., 1.]), ([0., 1., 0.], [0., 0., 1.])]);
                 let q = |k: i64| k as f64 / 8.0;
                 let sgn = if rng.chance(0.5) { 1.0 } else { -1.0 };    // trans or cis
                 let ab: [(f64, f64); 4] = [(q(-4 + rng.below(3) as i64 - 1), q(7 + rng.below(3) as i64 - 1)), (0.0, 0.0), (q(11 + rng.below(3) as i64 - 1), 0.0),
                                            (q(15 + rng.below(3) as i64 - 1), sgn * -q(7 + rng.below(3) as i64 - 1))];
                 for (p, (a, b)) in x.iter_mut().zip(ab.iter()) { p.x = a * u[0] + b * v[0]; p.y = a * u[1] + b * v[1]; p.z = a * u[2] + b * v[2]; }
+            }
+            // atoms on distinct points of a small cubic lattice (spacing 0.75 A, exact in binary): bonds exactly along x, y or z, three
+            // atoms exactly in a coordinate plane, plane normals exactly along an axis — what hand-typed and grid-built inputs are made of
+            if case % 8 == 1 {
+                let mut pts: Vec<[i64; 3]> = vec![];
+                while pts.len() < *na { let q = [rng.below(4) as i64 - 1, rng.below(4) as i64 - 1, rng.below(4) as i64 - 1]; if !pts.contains(&q) { pts.push(q); } }
+                // half of them flattened into one coordinate plane (y = const, x = const or z = const)
+                if *na >= 3 && rng.chance(0.5) { let ax = rng.below(3); for q in pts.iter_mut() { q[ax] = 0; } let mut uniq: Vec<[i64; 3]> = vec![]; for q in pts.iter() { if !uniq.contains(q) { uniq.push(*q); } } if uniq.len() == *na { /* keep */ } else { pts = vec![]; } }
+                if pts.len() == *na { for (p, q) in x.iter_mut().zip(pts.iter()) { p.x = 0.75 * q[0] as f64; p.y = 0.75 * q[1] as f64; p.z = 0.75 * q[2] as f64; } }
             }
             let desc = TermDesc { kind, idxs: (0..*na).collect(), params: params.clone() };
             let term = make_term(&desc);
